@@ -332,6 +332,7 @@ def malformed_cases():
     cases.append(("NaN impact", ev(impact={"rA|agri": float("nan")})))
     cases.append(("infinite impact", ev(impact={"rA|agri": float("inf")})))
     cases.append(("empty impact", ev(impact={})))
+    cases.append(("impact made only of zeros", ev(impact={"rA|agri": 0.0, "rB|manu": 0.0})))
     cases.append(("unknown region", ev(impact={"rZ|agri": 5.0})))
     cases.append(("unknown sector", ev(impact={"rA|nosuch": 5.0})))
     K = corpus.capital_of(tb, cfg)
@@ -427,9 +428,65 @@ def model_validators(dr: Driver, res):
             res["mismatches"].append({"phase": "validator", "what": f"T={T} occ={occ} dur={dur}: implementation admits {impl}, model {ans['admitted']}"})
 
 
-def explore_c20_extra(res, dr):
+def event_validators(dr: Driver, res, seed):
+    """numeric rejections of the event constructors: the model's `eventRejected` against the real
+    constructors + admission, on generated valid and invalid event specifications"""
+    tb = corpus.base_table()
+    cfg = corpus.base_cfg()
+    regs, secs, cats = scen.labels(tb)
+    sc0 = corpus.mk_sc(tb, cfg, [], T=12)
+    rng = random.Random(seed + 77)
+    for i in range(60):
+        kind = rng.choice(["rebuild", "recovery", "arbitrary"])
+        if kind == "rebuild":
+            ev = corpus.reb_event(tb, cfg, occ=rng.randint(1, 4), dur=rng.randint(1, 3), tau=rng.choice([1, 2, 5]),
+                                  sectors=rng.choice([{"build": 1.0}, {"build": 0.5, "manu": 0.5}, {"build": 0.7, "manu": 0.3}]))
+        elif kind == "recovery":
+            ev = corpus.rec_event(tb, cfg, occ=rng.randint(1, 4), dur=rng.randint(1, 3), tau=rng.choice([1, 3, 7]))
+        else:
+            ev = corpus.arb_event(loss=rng.choice([0.2, 0.9, 1.0]), occ=rng.randint(1, 4), dur=rng.randint(1, 3), tau=rng.choice([1, 3]))
+        bad = rng.choice([None, None, "tau0", "neg", "zero", "over", "shares", "shares_close", "dur0", "occ0"])
+        tkey = "rebuild_tau" if kind == "rebuild" else "recovery_tau"
+        if bad == "tau0":
+            ev[tkey] = 0
+        elif bad == "neg":
+            ev["impact"] = dict(ev["impact"], **{"rB|manu": -abs(next(iter(ev["impact"].values())))})
+        elif bad == "zero":
+            ev["impact"] = {kk: 0.0 for kk in ev["impact"]}
+        elif bad == "over" and kind == "arbitrary":
+            ev["impact"] = {kk: 1.0 + rng.choice([1e-9, 0.2]) for kk in ev["impact"]}
+        elif bad == "shares" and kind == "rebuild":
+            ev["reb_sectors"] = {"build": 0.6, "manu": 0.3}
+        elif bad == "shares_close" and kind == "rebuild":
+            ev["reb_sectors"] = {"build": 0.6, "manu": 0.4 + rng.choice([1e-9, 5e-6, 2e-5])}
+        elif bad == "dur0":
+            ev["dur"] = 0
+        elif bad == "occ0":
+            ev["occ"] = 0
+        res["corr_obligations"] += 1
+        res["steps"] += 1
+        bump(res, f"event-validator/{kind}/{bad}")
+        try:
+            sim = scen.build_sim(corpus.mk_sc(tb, cfg, [ev], T=12))
+            impl = "ok"
+        except Exception as e:
+            impl = "rejected"
+        sc = corpus.mk_sc(tb, cfg, [ev], T=12)
+        try:
+            req = {"op": "trackerinit", **corr.table_req(tb), "mf": q(cfg["monetary_factor"]), "mfLog10": 6, "ev": corr.event_req(sc, ev)}
+            model = dr.ask(req)["out"]
+        except NonFinite:
+            model = "rejected"
+        if impl == model:
+            res["corr_ok"] += 1
+        elif len(res["mismatches"]) < 20:
+            res["mismatches"].append({"phase": "event validator", "what": f"{kind} event ({bad}): implementation {impl}, model {model}", "event": ev})
+
+
+def explore_c20_extra(res, dr, seed=0):
     explore_malformed(res)
     model_validators(dr, res)
+    event_validators(dr, res, seed)
 
 
 # ====================================================================== C15: label order
